@@ -304,7 +304,7 @@ func TestVerifC05_verify448(t *testing.T) {
 	r := verifmc.Start(t, "C05", "verify448")
 	defer r.Finish()
 	r.Rule("per variant and base (seed, message, context): honest signature; S in {0,1,S+-1,L-1,L,L+1,S+jL (j<=16, while it fits),2^445,2^446-1,2^446,2^446+S,S|2^k (k=446..455),2^448-1,S+0xff*2^448,all-ones}; " +
-		"A = R = identity with S = jL (j in {0,1,2,3,4,5,8,15,255,1023}); A and R: all 4 small-order points, y=p+j and y=2^448-1-j (j<32) x sign bit (128 strings), forged signatures over small-order and mixed-order keys and R with torsion, " +
+		"A = identity, R = [S]B for the 12 legal boundary values S in {1,2,2^64-1,2^64,2^128,2^(n-2),2^(n-1)-1,2^(n-1),2^(n-1)+1,(L-1)/2,L-2,L-1} (must-accept; for Ed25519 four of them lie in the sliver [2^252,L)); A = R = identity with S = jL (j in {0,1,2,3,4,5,8,15,255,1023}); A and R: all 4 small-order points, y=p+j and y=2^448-1-j (j<32) x sign bit (128 strings), forged signatures over small-order and mixed-order keys and R with torsion, " +
 		"non-canonical strings denoting small-order points (y=p, y=p+1, x=0 with sign bit) and ALL 127 non-zero values of the 7 unused bits of the last byte of A and of R, each carrying a signature valid for the denoted point; " +
 		"wrong lengths; altered message and context; contexts of 256/257/511/512 bytes signed with a wrapped length octet; " +
 		"every single-bit flip of A, R and S (base b0 of Ed448 in the quick tier, all bases and both variants in the thorough tier); each variant's honest signature offered to the other; " +
